@@ -1,6 +1,6 @@
 // C03: client-to-location mapping is longest-prefix match over declared subnets.
 //
-// Level A (pure, deep): every set of <=3 (thorough <=4) subnets over a 72-prefix
+// Level A (pure, deep): every set of <=3 (quick: size 3 over a 40-prefix part; thorough <=4) subnets over a 72-prefix
 // alphabet x 2 locations -> real codec/Rearranger -> range-point table, read by
 // predecessor search as rdbdriver.GetLocationByMap reads it, for 270 clients,
 // against a brute-force longest-prefix oracle.
@@ -16,10 +16,8 @@ import (
 	"os"
 	"runtime/debug"
 	"sort"
-	"strconv"
 	"strings"
 	"sync"
-	"time"
 
 	"verifharness/dnsfix"
 	"verifharness/vlib"
@@ -27,7 +25,6 @@ import (
 
 func main() {
 	r := vlib.Start("C03")
-	start := time.Now()
 	debug.SetGCPercent(400)
 	dir, clean := vlib.Scratch("c03")
 	dnsfix.Quiet(dir)
@@ -42,25 +39,35 @@ func main() {
 	alpha := buildAlphabet(4)
 	clients := buildClients(alpha)
 
+	// All bounds are spatial and fixed per tier: nothing depends on the clock, two
+	// runs enumerate exactly the same cases.
 	var la *levelA
 	kA := r.Pick(3, 4)
 	if only == "" || only == "A" {
+		// quick: sets of <=2 over the whole alphabet, sets of 3 over the members of
+		// the trees of depth <=3 (plus defaults and edges); thorough: <=4 over all
+		allowed := make([][]bool, kA+1)
+		small := map[string]bool{}
+		for _, p := range buildAlphabet(3) {
+			small[p.text] = true
+		}
+		for size := range allowed {
+			allowed[size] = make([]bool, len(alpha))
+			for i := range alpha {
+				allowed[size][i] = r.Thorough() || size <= 2 || small[alpha[i].text]
+			}
+		}
 		la = newLevelA(r, alpha, clients)
-		la.run(kA, start.Add(capSeconds(r.Pick(35, 400))))
+		la.run(kA, allowed)
 		la.samples()
 	}
-
-	// Internal wall-clock caps (level A: whole enumeration tasks; levels C and B,
-	// which compile real RocksDB databases: whole cases)
-	// (DESIGN 1.6) only ever skip work in order of increasing size and mark the
-	// run non-exhaustive. No verdict depends on time.
 	var lc *levelC
 	if only == "" || only == "C" {
-		lc = runLevelC(r, dir, time.Now().Add(capSeconds(r.Pick(15, 150))))
+		lc = runLevelC(r, dir)
 	}
 	var lb *levelB
 	if only == "" || only == "B" {
-		lb = runLevelB(r, dir, start.Add(capSeconds(r.Pick(75, 850))))
+		lb = runLevelB(r, dir)
 	}
 	clean()
 	dumpFPs()
@@ -75,7 +82,7 @@ func main() {
 		r.Set("A_max_set_size", kA)
 		r.Set("A_clients", len(clients))
 		r.Set("A_sets", la.sets)
-		r.Set("A_tasks_skipped_by_time_cap", la.skipped)
+		r.Set("A_bound", map[string]string{"quick": "sets of <=2 over all 72 prefixes; sets of 3 over the 40 prefixes of the defaults, edges and trees of depth <=3", "thorough": "sets of <=4 over all 72 prefixes"}[r.Tier])
 		r.Set("A_sets_by_size", fmt.Sprint(la.setsBySize[1:kA+1]))
 		r.Set("A_evaluations", la.evals)
 		r.Set("A_expected_some_location", la.nontrivial)
@@ -89,7 +96,8 @@ func main() {
 		r.Set("B_clients", lb.nClients)
 		r.Set("B_sets", lb.nSets)
 		r.Set("B_cases", lb.nCases)
-		r.Set("B_cases_skipped_by_time_cap", lb.skipped)
+		r.Set("B_cases_also_on_rocksdb", lb.nRdbCases)
+		r.Set("B_rocksdb_selection", lb.rdbRule)
 		r.Set("B_databases_compiled", lb.dbs)
 		r.Set("B_evaluations", lb.evals)
 		r.Set("B_expected_some_location", lb.nontrivial)
@@ -102,9 +110,9 @@ func main() {
 		evals += lc.evals
 		nontriv += lc.nontrivial
 		r.Set("C_declarations", lc.nDecls)
-		r.Set("C_max_declarations_per_file", lc.k)
 		r.Set("C_files", lc.nFiles)
-		r.Set("C_files_skipped_by_time_cap", lc.skipped)
+		r.Set("C_files_also_on_rocksdb", lc.nRdbFiles)
+		r.Set("C_file_rule", lc.fileRule)
 		r.Set("C_query_names", lc.nNames)
 		r.Set("C_databases_compiled", lc.dbs)
 		r.Set("C_evaluations", lc.evals)
@@ -116,7 +124,7 @@ func main() {
 	r.Set("evaluations", evals)
 	r.Set("traces_validated_against_impl", evals)
 	r.Set("distinct_nontrivial", nontriv)
-	r.Set("rule", "A: all sets of <=k distinct subnets (each tagged with one of 2 locations, all taggings) from the alphabet {0.0.0.0/0, ::/0, 8 address-space edges, the 31-node binary tree /6../10 under 8.0.0.0/6, the 31-node tree /30../34 under 2001:db8::/30}; each set goes as '%' lines through the real Codec (Rnet.UnmarshalText, Accum, SubnetRanger, Rearranger.AddLocation/Rearrange, Rrangepoint.MarshalMap) and the resulting range-point keys are read by predecessor search as GetLocationByMap does, for every client of the universe (first/last/just-outside addresses of every alphabet prefix at lengths own-1, own, own+1, full; masked). B: all sets of <=2 subnets (quick: over the 24-prefix sub-alphabet with trees of depth 2; thorough: the full alphabet) compiled by cdb.CreateCDBFromReader / rdb.Compile into real stores inside several surroundings and looked up with Reader.ResolverLocation (full-length clients) and Reader.EcsLocation (all clients). C: all sets of <=3 map declarations over 8 owners x {M,8}, looked up for every query name. states = subnet sets (A) + compiled databases (B, C); transitions = evaluations = client (or name) lookups compared with the oracle; nontrivial = lookups for which the oracle expects a location (A, B) or a map (C). Only minimal failing cases are reported: a set whose failure (same client, same kind of disagreement) is not shown by a proper subset.")
+	r.Set("rule", "A: all sets of <=k distinct subnets (quick: <=2 over the whole alphabet and 3 over its 40-prefix part with trees of depth <=3; thorough: <=4 over the whole alphabet; each tagged with one of 2 locations, all taggings) from the alphabet {0.0.0.0/0, ::/0, 8 address-space edges, the 31-node binary tree /6../10 under 8.0.0.0/6, the 31-node tree /30../34 under 2001:db8::/30}; each set goes as '%' lines through the real Codec (Rnet.UnmarshalText, Accum, SubnetRanger, Rearranger.AddLocation/Rearrange, Rrangepoint.MarshalMap) and the resulting range-point keys are read by predecessor search as GetLocationByMap does, for every client of the universe (first/last/just-outside addresses of every alphabet prefix at lengths own-1, own, own+1, full; masked). B: all sets of <=2 subnets (quick: over the 24-prefix sub-alphabet with trees of depth 2; thorough: the full alphabet; taggings up to renaming) compiled by cdb.CreateCDBFromReader into CDB (read with the combined and with the per-family prefix-length sets) inside the surroundings listed under B_surroundings, and a fixed sub-space of these cases (B_rocksdb_selection) compiled by rdb.Compile to RocksDB v1 and v2 keys and looked up with Reader.ResolverLocation (full-length clients) and Reader.EcsLocation (all clients). C: files of map declarations over 8 owners x {M,8} as listed under C_file_rule, looked up for every query name. states = subnet sets (A) + compiled databases (B, C); transitions = evaluations = client (or name) lookups compared with the oracle; nontrivial = lookups for which the oracle expects a location (A, B) or a map (C). Only minimal failing cases are reported: a set whose failure (same client, same kind of disagreement) is not shown by an enumerated proper subset on the same store. No wall-clock bound is used anywhere; exhaustive=true means every case of the stated space was executed.")
 	r.Assume = []string{
 		"IPv6-family clients inside ::ffff:0:0/96 with prefix length >=96 are not generated (the statement does not say which family they belong to)",
 		"level B enumerates location taggings up to renaming of the two locations (level A enumerates all taggings)",
@@ -147,12 +155,4 @@ func dumpFPs() {
 		sort.Strings(allFP)
 		os.WriteFile(p, []byte(strings.Join(allFP, "\n")+"\n"), 0o644)
 	}
-}
-
-// capSeconds returns the wall-clock cap; C03_CAP=<seconds> overrides it (debugging aid).
-func capSeconds(def int) time.Duration {
-	if v, err := strconv.Atoi(os.Getenv("C03_CAP")); err == nil && v > 0 {
-		def = v
-	}
-	return time.Duration(def) * time.Second
 }
